@@ -172,6 +172,26 @@ pub fn run(args: &Args, rec: &mut Recorder) {
             rec.bump(&format!("probe.{}", label.split(" depth").next().unwrap_or("")));
             return None;
         }
+        if case % 64 == 9 {
+            // a valid document split over a tree of include files, loaded from disk
+            if let Some(main) = crate::c16::make_tree(rng, &g, &scratch, case) {
+                rec.eval();
+                rec.bump("gen.include_tree");
+                let strict = rng.coin();
+                crate::util::set_budget(50_000_000);
+                let r = guarded(|| a2lfile::load(&main, None, strict).map(|_| ()));
+                crate::util::reset_budget();
+                if let Err((sig, detail)) = r {
+                    rec.violation(
+                        &sig,
+                        &detail,
+                        Json::obj().with("generator", Json::s("include_tree")).with("case", Json::UInt(case)).with("note", Json::s("re-run this case with --only-case to regenerate the file tree")),
+                    );
+                }
+                let _ = std::fs::remove_dir_all(main.parent().unwrap());
+            }
+            return None;
+        }
         let h = gen_hostile(&g, &seeds, rng);
         let strict = rng.coin();
         let spec_kind = *rng.pick(&["none", "none", "valid", "invalid"]);
@@ -195,7 +215,7 @@ pub fn run(args: &Args, rec: &mut Recorder) {
     let _ = std::fs::remove_dir_all(&scratch);
     for k in [
         "gen.random_bytes", "gen.random_text", "gen.truncation", "gen.token_edit", "gen.token_soup",
-        "gen.byte_mutation", "gen.hostile_a2ml", "gen.a2ml_in_odd_place", "gen.truncation_in_a2ml", "gen.nesting",
+        "gen.byte_mutation", "gen.hostile_a2ml", "gen.a2ml_in_odd_place", "gen.include_tree", "gen.truncation_in_a2ml", "gen.nesting",
     ] {
         rec.floor(k, 10);
     }
